@@ -21,7 +21,7 @@ func init() {
 			"(R3) nothing is sent after an error: the send is only reachable when executeModules returned nil, and processBlock returns immediately on a non-EOF error of handleStepNew; " +
 			"(R4) once the gate is open every block is delivered, empty or not (no condition on the output between the open gate and the send for tier-1 requests), and the gate opens at the first new block ≥ LinearGateBlockNum; " +
 			"(R5) a message's cursor, clock and final height belong together (cursor.ToOpaque(), clock, cursor.LIB.Num(); for cached items all three derive from the item itself); " +
-			"(R6) a final cursor resumes at the next block, a step-new cursor after its block, a step-undo cursor at its block. Also (R6) the key of tier 1's failed-request memory is built from the request's start block, start cursor, stop block, mode and final-blocks-only. Also (R5) the error-discipline contradiction rules (stale test, sentinel-only test, wrapped nil, value before ok) are silent on pipeline and service.",
+			"(R6) a final cursor resumes at the next block, a step-new cursor after its block, a step-undo cursor at its block. Also (R6) the key of tier 1's failed-request memory is built from the request's start block, start cursor, stop block, mode and final-blocks-only. Also (R5) the error-discipline contradiction rules (stale test, sentinel-only test, wrapped nil, value before ok) are silent on pipeline and service. Also (R1) the cached-output walk reports completion only with the file walker's IsDone().",
 		NotCovered:  "Absence of duplicates/gaps across the hand-off for all configurations (depends on the C12/C13 arithmetic and on the external block stream), equality of a resumed stream with the original suffix.",
 		Assumptions: []string{"sort.Slice sorts by the given less function", "bstream delivers blocks of the linear phase in order from the hand-off block"},
 	})
@@ -519,6 +519,7 @@ func runC04(p *core.Prog, r *core.Report) {
 	// ------------------------------------------------------------------ R6
 	r.Guard("C04.R6", "resolveStartBlockNum", "cursor resolution", func() { checkCursorResolution(p, r, "C04.R6") })
 	r.Guard("C04.R6", "failure-key", "failed-request memory keyed by the whole request", func() { checkFailureKeyCoversRequest(p, r, "C04.R6") })
+	r.GuardExact("C04.R1", "walker-completion", "the walk ends with the last file", func() { checkWalkerCompletion(p, r, "C04.R1") })
 	r.GuardExact("C04.R5", "error-discipline", "errors are tested where they are produced", func() {
 		checkErrorDiscipline(p, r, "C04.R5", []string{"pipeline", "service"}, 100)
 	})
